@@ -169,6 +169,13 @@ def oracle(case):
                         want = int(last.split(",")[1])
                         if status != want:
                             bad = "client received %d, the last after hook returned %d" % (status, want)
+                    # ... also when what it returned is falsy: None is the empty 204 answer, text is a 200 page
+                    body = b"".join(outcome[2])
+                    if last == "ret~N" and (status != 204 or body):
+                        bad = "client received %d with %d body bytes, the last after hook returned None (204, no body)" % (
+                            status, len(body))
+                    if last == "ret~S78" and (status != 200 or body != b"x"):
+                        bad = "client received %d %r, the last after hook returned the text 'x'" % (status, body[:20])
                 if stop is not None and not c["us"] and not c["eh"]:
                     a = c["prog"]["a%d" % stop]
                     if (a.startswith("exc~") or a == "ret~X") and status != 500:
